@@ -23,10 +23,18 @@ for sid in sorted(os.listdir(root)):
     for p, r in (m.get('checks') or {}).items():
         if r.get('exit') == 1:
             sigs.append(f"{p}: " + ', '.join(s.split('/', 1)[1] for s in r.get('signatures', [])[:2]))
-    rows.append((sid, m['breaks_property'], first, '; '.join(sigs) or ('NOT CAUGHT (documented gap: old spans with repeated labels are outside the oracle)' if m.get('expected_miss') else 'NOT CAUGHT')))
+    if sigs:
+        verdict = '; '.join(sigs)
+    elif m.get('obsolete'):
+        verdict = 'OBSOLETE (a later fix: commit made the patch a no-op; caught while it was a behaviour change)'
+    elif m.get('expected_miss'):
+        verdict = 'NOT CAUGHT (documented gap: ' + re.sub(r'\s+', ' ', m['expected_miss'])[:160] + ' ...)'
+    else:
+        verdict = 'NOT CAUGHT'
+    rows.append((sid, m['breaks_property'], first, verdict))
 with open(os.path.join(root, 'INDEX.md'), 'w') as f:
     f.write('# Seeded changes (from independent sub-agents; each confirmed: applies, 240 baseline tests pass, demo fails with / passes without)\n\n')
-    f.write(f'{len(rows)} changes; caught: {sum(1 for r in rows if not r[3].startswith("NOT CAUGHT"))}.\n\n')
+    f.write(f'{len(rows)} changes; caught: {sum(1 for r in rows if not r[3].startswith(("NOT CAUGHT", "OBSOLETE")))}; documented gaps: {sum(1 for r in rows if r[3].startswith("NOT CAUGHT (documented"))}; obsolete: {sum(1 for r in rows if r[3].startswith("OBSOLETE"))}; not caught: {sum(1 for r in rows if r[3] == "NOT CAUGHT")}.\n\n')
     f.write('| id | property | mechanism (first line of the author\'s note) | caught by (check: first signatures) |\n|---|---|---|---|\n')
     for r in rows:
         f.write('| ' + ' | '.join(x.replace('|', '/') for x in r) + ' |\n')
